@@ -20,8 +20,10 @@ View == rvars
 \* the uploader re-cleans the work-tree file when the local object is gone
 InWorktree == IF SmudgedWT THEN {TreeOf(br[head])[p] : p \in Paths} \cap Oids ELSE {}
 
-Push(S, mode) ==
+\* D: branches deleted on the remote by the same `git push` (`git push origin :b ...`)
+Push(S, mode, D) ==
   /\ mode \in Modes /\ S # {} /\ \A b \in S : br[b] # NoCommit
+  /\ (mode # "git-push" => D = {}) /\ D \cap S = {} /\ \A b \in D : rr[b] # NoCommit
   /\ (mode = "git-push" => \A b \in S : br[b] # rr[b] /\ (rr[b] = NoCommit \/ rr[b] \in Anc(br[b], commits)))   \* fast-forward or new
   /\ (mode = "lfs-push-all" => S = {b \in Branches : br[b] # NoCommit})
   /\ LET exclude == IF mode = "lfs-push-all" THEN {}
@@ -37,11 +39,11 @@ Push(S, mode) ==
         /\ server' = IF verdict = "fail" THEN server ELSE server \cup need
         /\ local'  = IF verdict = "either" THEN [o \in Oids |-> IF o \in recov THEN "valid" ELSE local[o]] ELSE local
         /\ IF mode = "git-push" /\ verdict # "fail"
-             THEN /\ rr' = [b \in Branches |-> IF b \in S THEN br[b] ELSE rr[b]]
-                  /\ rt' = [b \in Branches |-> IF b \in S THEN br[b] ELSE rt[b]]
+             THEN /\ rr' = [b \in Branches |-> IF b \in S THEN br[b] ELSE IF b \in D THEN NoCommit ELSE rr[b]]
+                  /\ rt' = [b \in Branches |-> IF b \in S THEN br[b] ELSE IF b \in D THEN NoCommit ELSE rt[b]]
                   /\ everRemote' = everRemote \cup ReachSet({br[b] : b \in S}, commits)
              ELSE UNCHANGED <<rr, rt, everRemote>>
-        /\ Log([a |-> "push", mode |-> mode, refs |-> S, verdict |-> verdict, need |-> need, missing |-> missing,
+        /\ Log([a |-> "push", mode |-> mode, refs |-> S, deletes |-> D, verdict |-> verdict, need |-> need, missing |-> missing,
                 mayUpload |-> upl, serverBefore |-> server,
                 remoteNeeds |-> PtrOids(everRemote', commits), rrAfter |-> rr'])
   /\ UNCHANGED <<commits, br, head>>
@@ -50,7 +52,7 @@ Next == \/ \E b \in Branches, p \in Paths, blob \in Blobs, g \in Ages : Commit(b
         \/ \E b, o \in Branches : Merge(b, o)
         \/ \E o \in Oids, h \in {"absent", "corrupt"} : DamageLocal(o, h)
         \/ \E b \in Branches : OtherPush(b)
-        \/ \E S \in SUBSET Branches, m \in Modes : Push(S, m)
+        \/ \E S \in SUBSET Branches, m \in Modes, D \in SUBSET Branches : Push(S, m, D)
 Spec == RepoInit /\ [][Next]_vars
 
 \* C03 on the design: whatever became reachable on the remote has its objects on the server.
